@@ -30,13 +30,23 @@ struct Case {
 }
 
 fn gen(ch: &mut Ch, thorough: bool) -> Option<Case> {
-    let shape = if thorough { pick_shape(ch, 4, 3, false) } else { pick_shape(ch, 3, 2, false) };
+    // wide bodies (two-digit field positions) on three fixed shapes, otherwise Sh(n_v, n_f)
+    let wide = ch.pick(4);
+    let shape = match wide {
+        0 => if thorough { pick_shape(ch, 4, 3, false) } else { pick_shape(ch, 3, 2, false) },
+        1 => Shape { is_enum: false, variants: vec![VShape { kind: SKind::Tuple, n: 13 }] },
+        2 => Shape { is_enum: false, variants: vec![VShape { kind: SKind::Named, n: 12 }] },
+        _ => Shape { is_enum: true, variants: vec![VShape { kind: SKind::Tuple, n: 11 }, VShape { kind: SKind::Named, n: 12 }, VShape { kind: SKind::Unit, n: 0 }] },
+    };
     let generic = ch.flag();
     let with_copy = ch.flag();
     let raw = ch.flag();
     let bound = ch.pick(4);
     let special = ch.pick(4);
     let entry = *ch.of(&Entry::BOTH);
+    if wide != 0 && (raw || bound != 0 || special != 0) {
+        return None;
+    }
     if special != 0 && (generic || with_copy || raw || bound != 0 || shape.total_fields() == 0 || entry == Entry::Derive && shape.variants.len() > 1) {
         return None;
     }
@@ -55,7 +65,7 @@ fn gen(ch: &mut Ch, thorough: bool) -> Option<Case> {
     if generic && shape.total_fields() == 0 {
         return None;
     }
-    if !thorough && entry == Entry::Derive && shape.variants.len() > 2 {
+    if !thorough && entry == Entry::Derive && shape.variants.len() > 2 && wide == 0 {
         return None;
     }
     if thorough && shape.variants.len() == 4 && (generic || entry == Entry::Derive) {
@@ -98,7 +108,7 @@ fn field_val(c: &Case, vi: usize, fi: usize, id: u32) -> String {
 }
 
 fn ids(base: u32, vi: usize, n: usize) -> Vec<u32> {
-    (0..n).map(|fi| base + (vi as u32) * 10 + fi as u32 + 1).collect()
+    (0..n).map(|fi| base + (vi as u32) * 20 + fi as u32 + 1).collect()
 }
 
 fn build(c: &Case, tier: &str) -> XCase {
@@ -141,7 +151,7 @@ fn build_inner(c: &Case, tier: &str) -> XCase {
     s.push_str("fn mk(v: usize, base: u32) -> S {\n    match v {\n");
     for vi in 0..sh.variants.len() {
         let n = sh.variants[vi].n;
-        let args: Vec<String> = (0..n).map(|fi| field_val(c, vi, fi, 0).replace("(0", &format!("(base + {}", vi * 10 + fi + 1))).collect();
+        let args: Vec<String> = (0..n).map(|fi| field_val(c, vi, fi, 0).replace("(0", &format!("(base + {}", vi * 20 + fi + 1))).collect();
         s.push_str(&format!("        {vi} => {},\n", sh.ctor(vi, &args)));
     }
     s.push_str("        _ => unreachable!(),\n    }\n}\n");
